@@ -95,6 +95,8 @@ def main(tier):
     rep.attempt(gftype.check, rep, {'ec_mad', 'ec_mul'}, 'MAD', 37)
     import bounds
     rep.attempt(bounds.check, rep, {'ec_mad', 'ec_mul'}, 'MAD', 37)
+    import guardloop
+    rep.attempt(guardloop.check, rep, 'MAD', r'^erasure_code/.*(mad|mul)', 8)
     import gfrows
     rep.attempt(gfrows.check, rep, 35)
     import baseloops
